@@ -48,6 +48,9 @@ fn gen_uring(g: &mut Rng, _tier: Tier) -> J {
             lens.push(l);
         }
     }
+    // one run in eight uses socket time limits (a timed-out call leaves its submission in flight: the
+    // recorded finding C27-timeout-in-flight; the other runs stay free of it)
+    let with_limits = g.chance(1, 8);
     let mut calls = Vec::new();
     for l in &lens {
         let mut c = obj! {
@@ -56,6 +59,10 @@ fn gen_uring(g: &mut Rng, _tier: Tier) -> J {
             "caller" => if g.chance(2, 3) { "coroutine" } else { "thread" },
             "start_us" => g.below(20_000),
         };
+        if with_limits && g.chance(1, 2) {
+            // a socket time limit shorter than many of the completion delays (0.1 .. 28.1 ms)
+            c.set("limit_ms", (*g.pick(&[3u64, 8, 15])).into());
+        }
         if g.chance(1, 3) {
             // the same caller goes straight on with a second call (lengths 300.. are reserved for these)
             c.set("then_call", (*g.pick(&CALLS)).into());
@@ -75,6 +82,7 @@ fn gen_uring(g: &mut Rng, _tier: Tier) -> J {
 
 #[derive(Clone, Debug, Default)]
 struct CallRec {
+    limit_ns: u64,
     call: String,
     len: u32,
     began: Option<u64>,
@@ -84,6 +92,16 @@ struct CallRec {
 }
 
 fn do_uring_call(call: &str, fd: c_int, len: usize) -> (isize, i32) {
+    let (r, e) = do_uring_call_inner(call, fd, len);
+    if r == -1 && e == libc::ETIMEDOUT {
+        // the hook gave up on its time limit; the submission is still in flight and its slot in the
+        // loop's wait table is still there
+        vstd::sim::count("cause.uring.timed-out-call-left-in-flight");
+    }
+    (r, e)
+}
+
+fn do_uring_call_inner(call: &str, fd: c_int, len: usize) -> (isize, i32) {
     let mut buf = vec![0u8; len];
     unsafe { *libc::__errno_location() = 0 };
     let p = buf.as_mut_ptr().cast::<c_void>();
@@ -115,16 +133,24 @@ fn body_uring(plan: &J) {
         let (fd, peer) = socketpair();
         socks.push((fd, peer));
         let (call, len, start) = (c.gs("call").to_string(), c.gus("len"), c.gu("start_us"));
+        let limit_ms = c.get("limit_ms").map_or(0, J::u);
+        if limit_ms > 0 {
+            super::hooks::set_timeout(fd, libc::SO_RCVTIMEO, limit_ms);
+            super::hooks::set_timeout(fd, libc::SO_SNDTIMEO, limit_ms);
+            probe("uring.time-limit");
+        }
         {
             let mut r = recs.lock().unwrap_or_else(|e| e.into_inner());
             r[i].call = call.clone();
             r[i].len = len as u32;
+            r[i].limit_ns = limit_ms * 1_000_000;
         }
         let then: Option<(String, usize)> = c.get("then_call").map(|t| (t.s().to_string(), c.gus("then_len")));
         if let Some((tc, tl)) = &then {
             let mut r = recs.lock().unwrap_or_else(|e| e.into_inner());
             r[n + i].call = tc.clone();
             r[n + i].len = *tl as u32;
+            r[n + i].limit_ns = limit_ms * 1_000_000;
             probe("uring.follow-up-call");
         }
         let rc = recs.clone();
@@ -184,6 +210,12 @@ fn body_uring(plan: &J) {
             );
         };
         let _ = end;
+        // on a socket with a time limit a call may give up (this property does not say when); what it
+        // must never do is report somebody else's completion
+        if c.limit_ns > 0 && c.ret == -1 && (c.errno == libc::ETIMEDOUT || c.errno == libc::EAGAIN) {
+            probe("uring.timed-out");
+            continue;
+        }
         if want >= 0 {
             if c.ret != want as isize {
                 fail("uring-wrong-result", format!("hooked {}(len {}) returned {} (errno {}), its own completion carried {want}", c.call, c.len, c.ret, c.errno));
